@@ -75,7 +75,8 @@ impl<'l, F: AsFd> Async<'l, F> {
             #[cfg(windows)]
             fd: fd.as_socket().as_raw_socket(),
             token: None,
-            waker: None,
+            read_waker: None,
+            write_waker: None,
             is_registered: false,
             interest: Interest::EMPTY,
             last_readiness: Readiness::EMPTY,
@@ -135,15 +136,22 @@ impl<'l, F: AsFd> Async<'l, F> {
         self.fd.take().unwrap()
     }
 
-    fn readiness(&self) -> Readiness {
-        self.dispatcher.borrow_mut().readiness()
+    fn take_readiness(&self, interest: Interest) -> bool {
+        self.dispatcher.borrow_mut().take_readiness(interest)
     }
 
     fn register_waker(&self, interest: Interest, waker: Waker) -> crate::Result<()> {
         {
+            // A read and a write can be pending on the same adapter: each direction has its own
+            // waker, and the fd is registered for every direction that is waited for.
             let mut disp = self.dispatcher.borrow_mut();
-            disp.interest = interest;
-            disp.waker = Some(waker);
+            if interest.readable {
+                disp.read_waker = Some(waker.clone());
+            }
+            if interest.writable {
+                disp.write_waker = Some(waker);
+            }
+            disp.interest = disp.awaited_interest();
         }
         self.inner.reregister(&self.dispatcher)
     }
@@ -159,8 +167,7 @@ impl<F: AsFd> std::future::Future for Readable<'_, '_, F> {
     type Output = ();
     fn poll(mut self: Pin<&mut Self>, cx: &mut Context<'_>) -> TaskPoll<()> {
         let io = &mut self.as_mut().io;
-        let readiness = io.readiness();
-        if readiness.readable || readiness.error {
+        if io.take_readiness(Interest::READ) {
             TaskPoll::Ready(())
         } else {
             let _ = io.register_waker(Interest::READ, cx.waker().clone());
@@ -179,8 +186,7 @@ impl<F: AsFd> std::future::Future for Writable<'_, '_, F> {
     type Output = ();
     fn poll(mut self: Pin<&mut Self>, cx: &mut Context<'_>) -> TaskPoll<()> {
         let io = &mut self.as_mut().io;
-        let readiness = io.readiness();
-        if readiness.writable || readiness.error {
+        if io.take_readiness(Interest::WRITE) {
             TaskPoll::Ready(())
         } else {
             let _ = io.register_waker(Interest::WRITE, cx.waker().clone());
@@ -251,15 +257,33 @@ impl<Data> IoLoopInner for LoopInner<'_, Data> {
 struct IoDispatcher {
     fd: RawFd, // FIXME: `BorrowedFd`? How to statically verify it doesn't outlive file?
     token: Option<Token>,
-    waker: Option<Waker>,
+    read_waker: Option<Waker>,
+    write_waker: Option<Waker>,
     is_registered: bool,
     interest: Interest,
     last_readiness: Readiness,
 }
 
 impl IoDispatcher {
-    fn readiness(&mut self) -> Readiness {
-        std::mem::replace(&mut self.last_readiness, Readiness::EMPTY)
+    /// Whether the fd was reported ready for `interest` (or in error) since this was last asked;
+    /// what was reported for the other direction is left for whoever waits for it.
+    fn take_readiness(&mut self, interest: Interest) -> bool {
+        let last = &mut self.last_readiness;
+        let ready = (interest.readable && last.readable)
+            || (interest.writable && last.writable)
+            || last.error;
+        last.readable &= !interest.readable;
+        last.writable &= !interest.writable;
+        last.error = false;
+        ready
+    }
+
+    /// The directions a task is currently waiting for
+    fn awaited_interest(&self) -> Interest {
+        Interest {
+            readable: self.read_waker.is_some(),
+            writable: self.write_waker.is_some(),
+        }
     }
 }
 
@@ -271,11 +295,26 @@ impl<Data> EventDispatcher<Data> for RefCell<IoDispatcher> {
         _data: &mut Data,
     ) -> crate::Result<PostAction> {
         let mut disp = self.borrow_mut();
-        disp.last_readiness = readiness;
-        if let Some(waker) = disp.waker.take() {
-            waker.wake();
+        disp.last_readiness.readable |= readiness.readable;
+        disp.last_readiness.writable |= readiness.writable;
+        disp.last_readiness.error |= readiness.error;
+        if readiness.readable || readiness.error {
+            if let Some(waker) = disp.read_waker.take() {
+                waker.wake();
+            }
         }
-        Ok(PostAction::Continue)
+        if readiness.writable || readiness.error {
+            if let Some(waker) = disp.write_waker.take() {
+                waker.wake();
+            }
+        }
+        // The registration is one-shot: renew it if the other direction is still waited for.
+        disp.interest = disp.awaited_interest();
+        if disp.interest.readable || disp.interest.writable {
+            Ok(PostAction::Reregister)
+        } else {
+            Ok(PostAction::Continue)
+        }
     }
 
     fn register(
@@ -290,12 +329,19 @@ impl<Data> EventDispatcher<Data> for RefCell<IoDispatcher> {
 
     fn reregister(
         &self,
-        _: &mut Poll,
+        poll: &mut Poll,
         _: &mut AdditionalLifecycleEventsSet,
         _: &mut TokenFactory,
     ) -> crate::Result<bool> {
-        // registration is handled by IoLoopInner
-        unreachable!()
+        // only reached through the `PostAction::Reregister` of `process_events`
+        let disp = self.borrow();
+        poll.reregister(
+            unsafe { BorrowedFd::borrow_raw(disp.fd) },
+            disp.interest,
+            Mode::OneShot,
+            disp.token.expect("No token for IO dispatcher"),
+        )?;
+        Ok(true)
     }
 
     fn unregister(
